@@ -48,7 +48,36 @@ def changed_new_lines(before: str, after: str) -> set[int]:
     return out
 
 
+def shadowed(text: str) -> bool:
+    """a well-known module name is re-bound to something else (`import whatever as yaml`, `yaml = ...`): the rule matches by
+    spelling, the codemod resolves the name and declines"""
+    import ast
+    known = {"yaml", "requests", "random", "subprocess", "jwt", "lxml", "ssl", "logging", "threading", "tempfile", "jinja2", "flask", "pickle"}
+    try:
+        tree = ast.parse(text)
+    except SyntaxError:
+        return False
+    for n in ast.walk(tree):
+        if isinstance(n, ast.Import):
+            for a in n.names:
+                if a.asname in known and a.name.split(".")[0] != a.asname:
+                    return True
+        elif isinstance(n, ast.ImportFrom):
+            for a in n.names:
+                if (a.asname or a.name) in known and (n.module or "").split(".")[0] != (a.asname or a.name) and a.name != (a.asname or a.name):
+                    return True
+        elif isinstance(n, (ast.Assign, ast.AnnAssign)):
+            tg = n.targets if isinstance(n, ast.Assign) else [n.target]
+            if any(isinstance(t, ast.Name) and t.id in known for t in tg):
+                return True
+        elif isinstance(n, (ast.FunctionDef, ast.ClassDef)) and n.name in known:
+            return True
+    return False
+
+
 def declined(cid: str, text: str) -> bool:
+    if shadowed(text):
+        return True
     if cid.endswith("lazy-logging"):
         return True if any(k in text for k in ('" + "', "' + '", '%s" +', "%s' +", 'f"', "f'", 'b"', "r'", 'r"', "u'", '\\"', '"hi"')) else False
     if cid.endswith("bad-lock-with-statement"):
@@ -78,7 +107,7 @@ def search(ctx):
             if changed:
                 new_lines = changed_new_lines(rec["before"], rec["after"])
                 still = [f for f in rec["flagged1"] if any(l in new_lines for l in range(f[0], f[1] + 1))]
-                if still:
+                if still and not shadowed(rec["before"]):
                     ctx.fail({"kind": "still-flagged-after", "codemod": cid}, f"{cid}: after the run its rule still reports {still} inside rewritten lines (variant {name})",
                              {"codemod": cid, "program": name, "before": rec["before"], "after": rec["after"], "flagged_after": rec["flagged1"]})
     ctx.notes.append(f"rule-detected codemods in this pass: {n_sem}")
